@@ -36,7 +36,10 @@ def make_calls(ctx: Ctx, d: specgen.Doc) -> list[dict]:
             statuses = list(range(100, 200)) + list(range(300, 600))
         for st in statuses:
             for custom in (False, True):
-                body = rng.choice([{"json": {"error": "x", "code": st}}, {"text": "oops"}, {"content_hex": ""}])
+                # error bodies of every JSON shape (an error payload need not be an object), text, and none at all
+                body = rng.choice([{"json": {"error": "x", "code": st}}, {"text": "oops"}, {"content_hex": ""},
+                                   {"json": ["e1", "e2"]}, {"json": "just a string"}, {"json": None}, {"json": 42},
+                                   {"json": {"message": {"nested": True}}}])
                 plan = dict({"status": st}, **body)
                 calls.append({"id": f"{op['seg']}-{st}-{int(custom)}", "seg": op["seg"], "http": op["method"], "args": [],
                               "plan": plan, "custom_transport": custom,
@@ -88,7 +91,7 @@ def mk_doc(ctx: Ctx, trig: set[str]) -> specgen.Doc:
     return specgen.generate(ctx.rng, allow=trig, prof={"ops": (2, 4) if ctx.quick else (1, 2), "p_param": 0.3, "p_body": 0.2, "schemas": (2, 4),
                                                        "p_errors": 0.7, "p_3xx": 0.3, "p_stream": 0.1, "p_union": 0.0, "p_self_ref": 0.0,
                                                        "p_default_content": 0.5 if "default_with_content" in trig else 0.0,
-                                                       "p_default_content_nobody": 0.6})
+                                                       "p_default_content_nobody": 0.6, "p_component_refs": 0.3})
 
 
 def run_doc(ctx: Ctx, it: dict) -> None:
